@@ -321,34 +321,35 @@ func termPassesThrough(term core.Term, blocks map[*ssa.BasicBlock]bool, fn *ssa.
 // every path through an arm of the switch either returns an error or appends exactly one
 // element before the next iteration.
 func (c *Ctx) OneElementPerIteration(ob *core.Obligation, rel, fname string) {
-	fn := c.P.SSAFunc(c.P.LookupFunc(rel, fname))
-	if fn == nil {
-		// role-based fallback: the function that builds the invalid-allotment-sum error
-		for _, g := range c.P.ModuleFunctions() {
-			if relOfFn(g) != rel {
-				continue
-			}
-			for _, b := range g.Blocks {
-				for _, in := range b.Instrs {
-					if al, ok := in.(*ssa.Alloc); ok && al.Comment == "complit" && typeShort(derefT(al.Type())) == "InvalidAllotmentSum" {
-						fn = g
-					}
-				}
+	av := c.P.Named("internal/parser", "AllotmentValue")
+	n := 0
+	// role: the functions of the package that switch over the allotment item kinds and append
+	// to a slice of numbers
+	for _, g := range c.P.ModuleFunctions() {
+		if relOfFn(g) != rel || len(clauseEntries(g, av)) == 0 {
+			continue
+		}
+		appends := false
+		for _, ci := range core.Calls(g) {
+			if bi, ok := ci.Common().Value.(*ssa.Builtin); ok && bi.Name() == "append" && isBigSlice(ci.Common().Args[0].Type()) {
+				appends = true
 			}
 		}
+		if !appends {
+			continue
+		}
+		n++
+		c.oneElementPerIteration(ob, g, av)
 	}
-	if fn == nil {
-		ob.Unknown("anchor:allotment-function", "-", "allotment function not found")
-		return
+	if n == 0 {
+		ob.Unknown("anchor:allotment-function", "-", "no function that turns the allotment items into a slice of portions found")
 	}
+}
+
+func (c *Ctx) oneElementPerIteration(ob *core.Obligation, fn *ssa.Function, av *types.Named) {
 	c.Touch(fn)
-	av := c.P.Named("internal/parser", "AllotmentValue")
 	entries := clauseEntries(fn, av)
 	key := "one-per-item:" + core.SSAName(fn)
-	if len(entries) == 0 {
-		ob.Unknown(key, c.P.Pos(fn.Pos()), "no switch over the allotment item kinds")
-		return
-	}
 	// blocks that append to a slice of rationals
 	app := map[*ssa.BasicBlock]bool{}
 	for _, b := range fn.Blocks {
